@@ -115,3 +115,53 @@ Proof.
     apply in_or_app. right. apply in_or_app. left. left. reflexivity. }
   rewrite Hvisit. cbn [lbind]. rewrite <- flat_map_app, <- app_assoc. reflexivity.
 Qed.
+
+(** ---- the same on a loaded trie given by its references only *)
+Section MnodeInd.
+  Variable P : mnode -> Prop.
+  Hypothesis H : forall self v e forks, Forall P forks -> P (MNode self v e forks).
+  Fixpoint mnode_ind' (m : mnode) : P m :=
+    match m with
+    | MNode self v e forks =>
+        H self v e forks ((fix go (l : list mnode) : Forall P l :=
+                             match l with
+                             | [] => Forall_nil _
+                             | x :: l' => Forall_cons _ (mnode_ind' x) (go l')
+                             end) forks)
+    end.
+End MnodeInd.
+
+Lemma walk_mrefs (f : ref -> lres) (g : ref -> list addr) : forall m,
+  (forall r, In r (mrefs m) -> f r = LDone (g r)) ->
+  walk f m = LDone (flat_map g (mrefs m)).
+Proof.
+  induction m as [self v e forks IH] using mnode_ind'. intros Hf. cbn [walk mrefs] in *.
+  assert (Hforks : seq_all (walk f) forks = LDone (flat_map g (flat_map mrefs forks))).
+  { assert (Hf' : forall r, In r (flat_map mrefs forks) -> f r = LDone (g r))
+      by (intros r Hr; apply Hf; apply in_or_app; right; apply in_or_app; right; exact Hr).
+    clear Hf. induction IH as [|x l Hx Hl IHl]; [reflexivity|].
+    rewrite seq_all_cons. cbn [flat_map] in *.
+    rewrite Hx by (intros r Hr; apply Hf'; apply in_or_app; left; exact Hr).
+    cbn [lbind]. rewrite IHl by (intros r Hr; apply Hf'; apply in_or_app; right; exact Hr).
+    cbn [lbind]. rewrite flat_map_app. reflexivity. }
+  rewrite Hforks. unfold visit.
+  assert (Hs : match self with Some r => f r | None => LDone [] end
+               = LDone (flat_map g (match self with Some r => [r] | None => [] end))).
+  { destruct self as [r|]; cbn [flat_map]; [|reflexivity].
+    rewrite Hf by (left; reflexivity). rewrite app_nil_r. reflexivity. }
+  rewrite Hs. cbn [lbind]. rewrite !flat_map_app.
+  destruct v, e as [| |r]; cbn [flat_map lbind]; rewrite ?app_nil_r; try reflexivity.
+  rewrite Hf; [cbn [lbind]; rewrite <- app_assoc; reflexivity|].
+  apply in_or_app. right. apply in_or_app. left. left. reflexivity.
+Qed.
+
+Lemma mrefs_in : forall m r, In r (mrefs m) <-> In r (self_refs m) \/ In r (entry_refs m).
+Proof.
+  induction m as [self v e forks IH] using mnode_ind'. intros r.
+  cbn [mrefs self_refs entry_refs]. rewrite !in_app_iff.
+  assert (Hk : In r (flat_map mrefs forks) <-> In r (flat_map self_refs forks) \/ In r (flat_map entry_refs forks)).
+  { rewrite !in_flat_map. rewrite Forall_forall in IH. split.
+    - intros [x [Hx Hr]]. apply (IH x Hx) in Hr as [Hr|Hr]; [left|right]; exists x; auto.
+    - intros [[x [Hx Hr]]|[x [Hx Hr]]]; exists x; (split; [exact Hx|]); apply (IH x Hx); auto. }
+  rewrite Hk. tauto.
+Qed.
